@@ -10,6 +10,7 @@ import numpy as np
 from .. import gen, install, link, loops
 from ..common import EPS, pick, shard_count
 from ..ctx import HarnessError, LoopBoundExceeded
+from ..runner import refill_values
 
 META = {
     'rule': ('scenario cases = one curve (generic float families and exactly-integral families) with derived knee sets, a '
@@ -130,11 +131,15 @@ def same(a, b, exact):
 # --------------------------------------------------------------------------- scenario
 
 
+_REUSE = {}
+
+
 class Scenario:
     """Values of one scenario; ``view(layout)`` presents the arrays in one memory representation."""
 
     def __init__(self, rng, mods, integral):
         self.integral = integral
+        self.probe_rng = np.random.default_rng(int(rng.integers(0, 2 ** 31)))
         if integral:
             fam = pick(rng, ['smallint', 'pwl', 'stairs', 'collinear0'])
             for _ in range(20):
@@ -216,16 +221,35 @@ class Scenario:
 
     large = False
 
-    def view(self, layout):
+    def view(self, layout, alt=False):
         v = type('V', (), {})()
         v.s = self
         v.layout = layout
         for name in ('P', 'PK', 'E', 'va', 'vb', 'rects', 'tri', 'Z', 'values', 'G'):
             arr = getattr(self, name)
+            if alt:
+                # another valid input of the same shapes (used to pre-load reused buffers with different contents)
+                if name in ('P', 'Z'):
+                    arr = refill_values(arr)
+                elif name == 'PK':
+                    arr = refill_values(self.P)[self.K]
+                elif name in ('va', 'vb', 'values'):
+                    arr = arr[::-1] * 2.0 + 1.0
+                elif name == 'G':
+                    arr = arr[:, ::-1] * 2.0
             lay = layout
             if lay == 'i64' and not gen.is_integral(arr):
                 lay = 'C'
-            setattr(v, name, gen.present(arr, lay))
+            if lay == 'reuse':
+                # one persistent buffer per (field, shape): gen.present's registry is per shape only and two fields of one
+                # scenario may have equal shapes
+                buf = _REUSE.get((name, arr.shape))
+                if buf is None:
+                    buf = _REUSE[(name, arr.shape)] = np.empty(arr.shape, dtype=float)
+                buf[...] = arr
+                setattr(v, name, buf)
+            else:
+                setattr(v, name, gen.present(arr, lay))
         v.x, v.y = v.P[:, 0], v.P[:, 1]
         v.PR = v.P[self.reduced]
         for name in ('K', 'KR', 'reduced', 'removed', 'n', 't', 'tc', 'k', 'cmx'):
@@ -530,6 +554,16 @@ def run_entry(ctx, mods, name, fn, scen, layouts):
               first=r1, second=r2)
     if st1 == 'ok' and r1 is not None and (not hasattr(r1, '__len__') or len(r1) > 0):
         ctx.nontriv(name, scen.P, scen.K, scen.k, scen.t)
+    if scen.probe_rng.random() < 0.3:
+        # stale-state probe: the caller's buffers (same objects, shapes, addresses) first hold ANOTHER valid input, then
+        # are refilled with this scenario's values; the second call must equal the call on a fresh C-ordered copy
+        call(ctx, name, fn, scen.view('reuse', alt=True))
+        sts, rs = call(ctx, name, fn, scen.view('reuse'))
+        if sts == st1:
+            eq_ = (same(r1, rs, False)[0] if st1 == 'ok' else r1 == rs)
+            ctx.check(eq_, 'representation', f'representation:{short}:reused-buffer',
+                      f'{name}: a call on buffers that previously held another input differs from the call on a fresh copy of the same values',
+                      c_result=r1, reused_result=rs)
     agree = {}
     for lay in layouts:
         stl, rl = call(ctx, name, fn, scen.view(lay))
